@@ -29,6 +29,8 @@ enum Fault {
     Misplaced,
     Overrun,
     Oversize,
+    /// two faults on one element: id outside the spec AND declared size crossing a known-size ancestor
+    UnknownIdOverrun,
 }
 
 fn kind_of(e: &ErrK) -> u8 {
@@ -112,7 +114,7 @@ fn find_marked(forest: &[Node], pred: &dyn Fn(&Node) -> bool) -> Option<usize> {
 fn stage_fault(i: &Input, c: &mut Case) -> Result<(), String> {
     let mut t = Tape::new(i.tape());
     let to = TreeOpts { max_nodes: 24, pay: PayOpts { big_left: 0, huge: false, max_small: 16 }, deep: t.chance(1, 2), ..TreeOpts::default() };
-    let fault = *t.pick(&[Fault::None, Fault::UnknownId, Fault::UnknownId, Fault::Misplaced, Fault::Misplaced, Fault::Overrun, Fault::Overrun, Fault::Oversize, Fault::Oversize]);
+    let fault = *t.pick(&[Fault::None, Fault::UnknownId, Fault::UnknownId, Fault::Misplaced, Fault::Misplaced, Fault::Overrun, Fault::Overrun, Fault::Oversize, Fault::Oversize, Fault::UnknownIdOverrun]);
     // the overrun fault is also injected into documents that mix known- and unknown-size masters (the overrun is measured
     // against the innermost KNOWN-size ancestor); the id / placement faults keep to known-size documents, where an inserted
     // element cannot at the same time end an unknown-size master
@@ -129,11 +131,14 @@ fn stage_fault(i: &Input, c: &mut Case) -> Result<(), String> {
     let mut fault = fault;
     match fault {
         Fault::None | Fault::Oversize => {}
-        Fault::UnknownId => {
+        Fault::UnknownId | Fault::UnknownIdOverrun => {
             let id = gen_unknown_id(&mut t, &spec);
             let n = t.below(6);
             let mut node = Node::leaf(id, Payload::Raw(t.bytes(n)));
             node.enc.mark = true;
+            if fault == Fault::UnknownIdOverrun {
+                node.enc.size_w = 4;
+            }
             if !insert_somewhere(&mut t, &mut d.forest, node, &|_| true) {
                 fault = Fault::None;
             }
@@ -213,10 +218,20 @@ fn stage_fault(i: &Input, c: &mut Case) -> Result<(), String> {
     let fl = flatten(&d.forest);
     let ps = flat_positions(&d.forest);
     match fault {
-        Fault::UnknownId | Fault::Misplaced => {
+        Fault::UnknownId | Fault::Misplaced | Fault::UnknownIdOverrun => {
             let idx = find_marked(&d.forest, &|n| n.enc.mark);
             match idx {
-                Some(ix) => fault_at = Some((ps[ix], lay[ix].tag_start, lay[ix].id)),
+                Some(ix) => {
+                    fault_at = Some((ps[ix], lay[ix].tag_start, lay[ix].id));
+                    if fault == Fault::UnknownIdOverrun {
+                        let l = lay[ix].clone();
+                        let parent_end = lay[l.parent.unwrap()].payload_end;
+                        let new_size = (parent_end - l.header_end) as u64 + 1 + t.below(20) as u64;
+                        oversize_decl = new_size;
+                        bytes[l.id_end..l.header_end].copy_from_slice(&ref_vint(new_size, 4).unwrap());
+                        bytes.extend(std::iter::repeat(0x20).take(new_size as usize + 4));
+                    }
+                }
                 None => fault = Fault::None,
             }
         }
@@ -283,6 +298,7 @@ fn stage_fault(i: &Input, c: &mut Case) -> Result<(), String> {
         Fault::Misplaced => "fault_misplaced",
         Fault::Overrun => "fault_overrun",
         Fault::Oversize => "fault_oversize",
+        Fault::UnknownIdOverrun => "fault_unknown_id_and_overrun",
     });
     c.label(if d.spec.is_rich() { "spec_macro_derived" } else { "spec_generated" });
     c.label_if(limit_choice.is_none(), "limit_untouched");
@@ -296,7 +312,7 @@ fn stage_fault(i: &Input, c: &mut Case) -> Result<(), String> {
     // other faults: default limit, unless some byte sequence of the input could be read as a multi-MiB size under a tolerant setting
     let max_size = if fault == Fault::Oversize { max_size } else { safe_max_size(&bytes, MaxSize::Untouched).0 };
     let own = match fault {
-        Fault::UnknownId => TOL_IDS,
+        Fault::UnknownId | Fault::UnknownIdOverrun => TOL_IDS,
         Fault::Misplaced => TOL_HIER,
         Fault::Overrun => TOL_OVER,
         _ => 0,
@@ -327,6 +343,23 @@ fn stage_fault(i: &Input, c: &mut Case) -> Result<(), String> {
                 Fault::None => {
                     if err.is_some() || items != flat {
                         return Err(ctx("a valid document is not read completely / identically under this tolerance setting".into()));
+                    }
+                }
+                Fault::UnknownIdOverrun => {
+                    // the id check comes first; with unknown ids tolerated the overrun must still be reported, unless that is tolerated too
+                    let (fp, start, id) = fault_at.unwrap();
+                    reached += 1;
+                    let ok = match err {
+                        Some(Obs::Err(ErrK::InvalidTagId { position, tag_id })) => tol & TOL_IDS == 0 && *position == start && *tag_id == id,
+                        Some(Obs::Err(ErrK::OversizedChild { position, tag_id, size })) => tol & TOL_IDS != 0 && tol & TOL_OVER == 0 && *position == start && *tag_id == id && *size as u64 == oversize_decl,
+                        _ => tol & TOL_IDS != 0 && tol & TOL_OVER != 0,
+                    };
+                    if !ok {
+                        return Err(ctx(format!("element at offset {} has an id outside the specification AND overruns its known-size parent: expected {}", start, if tol & TOL_IDS == 0 { "InvalidTagId" } else if tol & TOL_OVER == 0 { "OversizedChildElement (tolerating unknown ids must not silence the overrun)" } else { "no error of these two kinds" })));
+                    }
+                    let must = flat[..fp].iter().rposition(|f| !f.is_end()).map(|x| x + 1).unwrap_or(0);
+                    if items.len() < must || items[..must] != flat[..must] {
+                        return Err(ctx("items before the doubly faulty element differ from the document's prefix".into()));
                     }
                 }
                 Fault::Oversize => {
@@ -465,7 +498,7 @@ pub fn run(rc: &mut RunCtx) {
     rc.run_pt(STAGES[0], rc.pick(40_000, 800_000), (96, 500));
     rc.run_pt(STAGES[2], rc.pick(40_000, 800_000), (96, 500));
     rc.require_label("single_fault", "overrun_through_unknown_size_master", 5_000);
-    for l in ["fault_unknown_id", "fault_misplaced", "fault_overrun", "fault_oversize", "own_class_tolerated", "limit_untouched"] {
+    for l in ["fault_unknown_id", "fault_misplaced", "fault_overrun", "fault_oversize", "fault_unknown_id_and_overrun", "own_class_tolerated", "limit_untouched"] {
         rc.require_label("single_fault", l, 20_000);
     }
     rc.require_label("mutated", "tolerant_parse_goes_further", 50_000);
